@@ -3,7 +3,7 @@
    Model: models/Version.v (strutil/version.go function by function; chOrder regenerated into gen/ChOrder.v). *)
 From Coq Require Import List NArith ZArith Bool String.
 Open Scope string_scope.
-Require Import V.lib.Bytes V.models.Version V.proofs.VersionProofs V.proofs.VersionOrder.
+Require Import V.lib.Bytes V.models.Version V.proofs.VersionProofs V.proofs.VersionOrder V.proofs.VersionDpkg.
 
 (* versions with an epoch ("<digits>:" prefix) are rejected, and nothing else is *)
 Theorem C33_epoch_rejected : forall a b : bytes,
@@ -72,12 +72,48 @@ Theorem C33_transitive_small_domain : forall a b c : bytes,
 Proof. exact transitive_small_domain. Qed.
 Print Assumptions C33_transitive_small_domain.
 
-(* agreement with Debian ordering — PARTIAL. Full statement: for all structurally valid versions a b (debian_wf: no NUL, no
-   epoch, non-empty upstream part, non-empty revision after a hyphen), version_compare a b = Res (dpkg_compare a b), where
-   dpkg_compare is the independent model of dpkg's verrevcmp. Proved here on the complete finite domain of all strings of
-   length <= 3 over the bytes `0 a . ~ -`; beyond it the monitor compares the implementation with the reference model on every
-   generated pair and with /usr/bin/dpkg on a sample. Missing: the simulation between the fragment loop and verrevcmp. *)
-Theorem C33_matches_debian_partial : forall a b : bytes,
+(* agreement with Debian ordering — FULL, unbounded. For ALL byte strings a b made of real non-NUL bytes (`ok`: 0 < byte < 256)
+   that are structurally valid Debian versions (`debian_wf`: no NUL, no epoch, non-empty upstream part, non-empty revision
+   after a hyphen), version_compare returns exactly what dpkg_compare returns, where dpkg_compare is the independent model of
+   dpkg's verrevcmp (first the upstream parts, then the revisions; a missing revision is "0" for snapd and "" for dpkg).
+   No bound on the lengths: proofs/VersionDpkg.v is a simulation between the fragment loop of compareSubversion and the
+   character loop of verrevcmp; the regenerated chOrder table enters through one fact checked on all 256 x 256 pairs of symbols
+   (the two orders sort every pair the same way, except digit against end-of-string). `ok` is needed beyond debian_wf only to
+   say that list elements are bytes (< 256); it implies the no-NUL part of debian_wf (VersionDpkg.ok_no_nul). *)
+Theorem C33_matches_debian : forall a b : bytes,
+  ok a = true -> ok b = true -> debian_wf a = true -> debian_wf b = true ->
+  exists r, version_compare a b = Res r /\ dpkg_compare a b = Some r.
+Proof. exact version_compare_matches_dpkg. Qed.
+Print Assumptions C33_matches_debian.
+
+(* the same in the boolean form evaluated by the monitor and by the finite-domain check below *)
+Theorem C33_matches_debian_bool : forall a b : bytes, ok a = true -> ok b = true -> debian_ok a b = true.
+Proof. exact debian_ok_all. Qed.
+Print Assumptions C33_matches_debian_bool.
+
+(* the level below: compareSubversion has the sign of verrevcmp on any two NUL-free byte strings, provided the first position
+   is not (empty, starts with a digit) — there snapd pads with a byte that sorts before digits while dpkg reads a missing
+   number as 0. debian_wf (non-empty parts) excludes exactly that. *)
+Theorem C33_subversion_matches_verrevcmp : forall va vb : bytes, ok va = true -> ok vb = true -> first_ok va vb = true ->
+  exists d, compare_subversion va vb = Some (sgn d) /\ dpkg_verrevcmp (sub_fuel va vb) va vb = Some d.
+Proof. exact subversion_matches_dpkg. Qed.
+Print Assumptions C33_subversion_matches_verrevcmp.
+
+(* non-vacuity: real versions meet the hypotheses, with and without a revision *)
+Example C33_matches_debian_nonvacuous :
+  ok (bs "1.0~rc1-2") = true /\ ok (bs "1.0-0ubuntu1") = true /\ ok (bs "1.0") = true /\
+  debian_wf (bs "1.0~rc1-2") = true /\ debian_wf (bs "1.0-0ubuntu1") = true /\ debian_wf (bs "1.0") = true /\
+  version_compare (bs "1.0~rc1-2") (bs "1.0-0ubuntu1") = Res (-1)%Z /\ version_compare (bs "1.0") (bs "1.0-0ubuntu1") = Res (-1)%Z.
+Proof. vm_compute. repeat split; reflexivity. Qed.
+
+(* the non-emptiness hypothesis is needed: against the empty string (not a Debian version) "0" is greater for snapd, equal for dpkg *)
+Example C33_matches_debian_needs_nonempty :
+  version_compare (bs "0") nil = Res 1%Z /\ dpkg_compare (bs "0") nil = Some 0%Z.
+Proof. vm_compute. split; reflexivity. Qed.
+
+(* the finite-domain check that preceded the unbounded proof, kept as a regression check of the models against the table
+   (all strings of length <= 3 over the bytes `0 a . ~ -`; it re-runs whenever gen/ChOrder.v changes) *)
+Theorem C33_matches_debian_small_domain : forall a b : bytes,
   In a debian_domain -> In b debian_domain -> debian_ok a b = true.
 Proof. exact debian_small_domain. Qed.
-Print Assumptions C33_matches_debian_partial.
+Print Assumptions C33_matches_debian_small_domain.
